@@ -384,3 +384,92 @@ extern "C" void spt_main()
     if (l.chan == ch_error) verif_assert(r1.err == l.v && r2.err == l.v, "split_tuple: error forwarded to every element sender");
     verif_cover(0);
 }
+
+// ---- when_all: a predecessor value whose decay-copy into when_all's storage throws -------------------------------------
+struct tv
+{
+    int x;
+    bool boom;
+    tv(int x, bool boom) noexcept : x(x), boom(boom) {}
+    tv(tv const& o) : x(o.x), boom(o.boom)
+    {
+        if (boom) throw test_error{88};
+    }
+    tv(tv&& o) noexcept : x(o.x), boom(o.boom) {}
+};
+struct recv_tv
+{
+    PIKA_STDEXEC_RECEIVER_CONCEPT
+    record* r;
+    void set_value(tv v, int w) && noexcept
+    {
+        ++r->signals;
+        r->chan = ch_value;
+        r->value = v.x;
+        r->value2 = w;
+    }
+    void set_error(std::exception_ptr e) && noexcept { recv<>{r}.set_error(std::move(e)); }
+    void set_stopped() && noexcept
+    {
+        ++r->signals;
+        r->chan = ch_stopped;
+    }
+    constexpr ex::empty_env get_env() const& noexcept { return {}; }
+};
+struct vleaf
+{
+    PIKA_STDEXEC_SENDER_CONCEPT
+    int chan, x;
+    bool boom;
+    template <template <typename...> class Tuple, template <typename...> class Variant>
+    using value_types = Variant<Tuple<tv>>;
+    template <template <typename...> class Variant>
+    using error_types = Variant<std::exception_ptr>;
+    static constexpr bool sends_done = true;
+    using completion_signatures = ex::completion_signatures<ex::set_value_t(tv const&), ex::set_error_t(std::exception_ptr), ex::set_stopped_t()>;
+    template <typename R>
+    struct op
+    {
+        std::decay_t<R> r;
+        int chan;
+        tv val;
+        void start() & noexcept
+        {
+            ++leaf_started[0];
+            if (chan == ch_value) ex::set_value(std::move(r), static_cast<tv const&>(val));
+            else if (chan == ch_error)
+                ex::set_error(std::move(r), std::make_exception_ptr(test_error{val.x}));
+            else
+                ex::set_stopped(std::move(r));
+        }
+    };
+    template <typename R>
+    op<R> connect(R&& r) const
+    {
+        return op<R>{std::forward<R>(r), chan, tv(x, boom)};
+    }
+};
+extern "C" void wallt_main()
+{
+    vleaf a{(int) verif_nondet_range(0, 2), (int) verif_nondet_range(1, 5), (bool) verif_nondet_range(0, 1)};
+    leaf b = mk(1);
+    record rec;
+    auto s = ex::when_all(a, b);
+    auto o = ex::connect(std::move(s), recv_tv{&rec});
+    ex::start(o);
+    verif_assert(rec.signals == 1, "exactly one completion signal");
+    verif_assert(leaf_started[0] == 1 && leaf_started[1] == 1, "when_all starts every predecessor exactly once");
+    if (a.chan == ch_value && a.boom)
+        verif_assert(rec.chan == ch_error && rec.err == 88, "when_all: an exception thrown while storing a value arrives as that error");
+    else if (a.chan == ch_value && b.chan == ch_value)
+        verif_assert(rec.chan == ch_value && rec.value == a.x && rec.value2 == b.value, "when_all: values in order");
+    else if (a.chan == ch_error)
+        verif_assert(rec.chan == ch_error && rec.err == a.x, "when_all: first error wins");
+    else if (a.chan == ch_stopped)
+        verif_assert(rec.chan == ch_stopped, "when_all: stopped of the first predecessor wins");
+    else if (b.chan == ch_error)
+        verif_assert(rec.chan == ch_error && rec.err == b.value, "when_all: error forwarded");
+    else
+        verif_assert(rec.chan == ch_stopped, "when_all: stopped forwarded");
+    verif_cover(0);
+}
